@@ -440,6 +440,22 @@ def weights_rules(chk, ctx):
                 else:
                     chk.decide("C14.WEIGHTS", cons + "/count", True if cnt == nadd else False,
                                f"{cnt} weight update(s) per action, expected {nadd}", rel=REL, node=h)
+            if act in ("Copy", "Move"):
+                # a load happens with at least one checkpoint on the stack (cursor >= 0): the handler must accept every
+                # such state - a guard that raises for cursor == 0 rejects the load of the bottom checkpoint
+                st0 = State()
+                st0.add_eq(OLD - C)
+                st0.add_ineq(C)
+                for k, v in cond.items():
+                    st0.enum_set(k, v)
+                it0 = Interp(h, entry=st0, finalize_havoc=False)
+                it0.DEFAULT_PART = ()
+                it0.run()
+                raises = [o for o in it0.outcomes if o.kind == "raise" and not (o.state.bottom or o.state.dead())]
+                chk.decide("C14.WEIGHTS", cons + "/accepts", True if not raises else False,
+                           "the handler accepts every stack with a checkpoint on it (cursor >= 0)" if not raises else
+                           "the handler raises for a stack that holds a checkpoint (cursor >= 0): valid RAM+DISK configurations "
+                           "fail at construction", rel=REL, node=h, nontrivial=False)
             if off is not None:
                 for t, s in adds:
                     idx = Interp(h, finalize_havoc=False).ev(t.slice, s.copy())
